@@ -1,7 +1,8 @@
 """C10  Cython accelerated math equals the pure-Python implementation (DESIGN.md section 7, C10).
 
 regenerate : BOTH twins of every translatable kernel -> Gen/{Vector,Matrix44}{Py,Pyx}.lean (shared with C11) and
-             Gen/Twins{Py,Pyx}.lean (further Vec2/Vec3 kernels, Bezier4P/Bezier3P, construct helpers)
+             Gen/Twins{Py,Pyx}.lean (further Vec2/Vec3 kernels, Bezier4P/Bezier3P, construct helpers);
+             loops (props/c10_loops.py): loop bodies/tests of both twins -> Gen/TwinLoops{Py,Pyx}.lean + pinned loop skeletons
 prove      : Props/C10.lean  twin_<f> : Py.f = Pyx.f  for all rational arguments
 correspond : the kernels of Gen/Twins*.lean against both implementations (ties the translation to the code)
 oracle     : differential test of EVERY public method/operator of each twin pair on value classes
@@ -14,11 +15,12 @@ import sys
 from fractions import Fraction as Fr
 
 from props import c11
+from props import c10_loops
 
 ID = "C10"
 LEAN_MODULES = ["EzdxfVerif.Props.C10"]
-GEN = ["VectorPy", "VectorPyx", "Matrix44Py", "Matrix44Pyx", "TwinsPy", "TwinsPyx"]
-DRIVER_DEPS = ["EzdxfVerif.Model.Rat3", "Drivers.Proto"] + [f"EzdxfVerif.Gen.{g}" for g in GEN]
+GEN = ["VectorPy", "VectorPyx", "Matrix44Py", "Matrix44Pyx", "TwinsPy", "TwinsPyx", "TwinLoopsPy", "TwinLoopsPyx"]
+DRIVER_DEPS = ["EzdxfVerif.Model.Rat3", "EzdxfVerif.Model.TwinLoops", "Drivers.Proto"] + [f"EzdxfVerif.Gen.{g}" for g in GEN]
 
 SRC = {
     "py": {"vector": "src/ezdxf/math/_vector.py", "matrix": "src/ezdxf/math/_matrix44.py",
@@ -107,6 +109,8 @@ def regenerate(ctx):
                 extra += d.sqrt_wrapper() + "\n"
         srcs = sorted(set(src.values())) + (PXD if twin == "pyx" else [])
         ctx.write_gen(f"Twins{suffix}", lean_file(f"EzdxfVerif.Gen.Twins{suffix}", defs, extra=extra), srcs)
+    # loops (session 3): loop bodies / tests cut out of both twins, skeleton text compared with the pinned one
+    c10_loops.regenerate_loops(ctx)
 
 
 # ================================================================================================ twins on the real code
@@ -121,18 +125,46 @@ RULE = (
     "from value classes (0, -0.0, 1e-13..1e-300, 1e16..1e300, dyadic, mixed magnitudes, collinear/degenerate, Vec2/Vec3/tuple/"
     "list inputs, wrong arity and type); equal = same exception TYPE or values within 4 ulp (exact for bool/int/str), same "
     "hash/eq/repr/bool/len/iteration; a public name present in one twin only or not exercised is itself reported. "
-    "non-trivial = result is not an exception in both twins; distinct by hash of (call, arguments)."
+    "non-trivial = result is not an exception in both twins; distinct by hash of (call, arguments). "
+    "LOOPS (session 3): regenerate cuts every loop body and loop test of Basis.find_span / basis_funcs / span_weighting / "
+    "basis_funcs_derivatives (first loop), Evaluator.point / derivative, _LineTypeRenderer._render_dashes / line_segment, "
+    "has_clockwise_orientation (construct both twins, np_support) and Lib/bisect.py out of the current source "
+    "(harness/translate/py2lean_c10.py) -> Gen/TwinLoops{Py,Pyx}.lean; the remaining loop skeleton of each function is compared "
+    "with the pinned text harness/props/c10_skeletons.json that Model/TwinLoops.lean models; banded LU and the rest of A2.3 are "
+    "checked to be the same loop text in both twins (up to the rewrites listed in c10_loops.DERIV_REWRITES); every function of the "
+    "two earcut modules is checked to be the same text up to c10_loops.EARCUT_TOKENS or to have its pinned diff. prove: twin_<kernel> "
+    "for every cut, twin_<loop> for every loop via the generic lemmas of Lemmas/TwinLoops.lean. correspondence X3/X4: the "
+    "instantiated loops vs BOTH implementations (find_span, basis_funcs, basis_vector, Evaluator.point, Evaluator.derivative given "
+    "the implementation's derivative table, consecutive line_segment calls of one renderer, clockwise tests), dyadic inputs. "
+    "oracle: every public name of every module of the package ezdxf.acc is enumerated from the LIVE modules (pkgutil + dir()); a "
+    "module without registered twin, a name without twin, and a name with neither theorem nor differential stream is reported "
+    "(evidence: coverage.api_inventory)."
 )
 TRUSTED_BASE = [
     "py2lean translator + pyx pre-pass (cross-checked by the correspondence stream of C10 and C11 on every run)",
     "the differential oracle compares observable results only; CPython/Cython calling conventions are taken as they are",
+    "loops: Model/TwinLoops.lean is a hand written reading of the pinned loop skeletons (iteration order, which array cell a kernel "
+    "reads/writes, list building); tied by the pinned-text comparison on every run and by correspondence X3/X4 against both twins",
+    "bisect.bisect_right: the C accelerator _bisect is taken to be Lib/bisect.py (whose loop is the one translated)",
+    "banded LU and the loops of A2.3 after the first: equal source text is taken to mean equal behaviour of Python floats/numpy "
+    "float64 cells and C doubles (IEEE binary64 in both; the ZeroDivisionError difference of numpy scalars was defect D14, fixed)",
 ]
 ASSUMPTIONS = [
     "finite doubles only (NaN/inf arguments are not part of the value classes)",
     "4 ulp tolerance for float results of the two twins (different association order / sqrt vs pow / hypot)",
+    "loop theorems are over the rationals; array reads outside an array (span outside the knot vector: IndexError in Python, foreign "
+    "memory in C) are outside the model (0); while loops carry fuel, both twins get the same fuel",
+    "twin_binomial: k <= 18 (size of the FACTORIAL table; the Cython Basis limits the order to 11)",
 ]
 OPEN = [
-    "B-spline Basis/Evaluator, earcut, linetype renderer, np_support LU: loops outside the translator subset, differential only",
+    "earcut (mapbox_earcut twins): no Lean twin theorem here; tie = 21 of the 29 functions (all ring surgery loops) are the SAME text in both "
+    "twins after the token rewrites EARCUT_TOKENS, the diffs of the other 8 are pinned (c10_loops.earcut_identity, checked every run); the "
+    "arithmetic leaf kernels of both twins are proved equal in C19 (cython_twin_kernels_agree); is_ear/is_ear_hashed/find_hole_bridge/"
+    "eliminate_holes/earcut differ in text and are differential only",
+    "Basis.basis_funcs_derivatives after its first loop, banded LU: no Lean model; tie = equal source text of the two twins, checked every run",
+    "Evaluator.derivative: proved given the same derivative table from A2.3 (twin_evalDerivative takes it as a parameter)",
+    "Bezier flattening / approximated_length, cubic_bezier_from_arc/_ellipse, is_point_in_polygon_2d, arc_angle_span_*, mercator, perspective "
+    "matrices, rotate/angle (atan2/acos), argument coercion, float rounding: differential only",
 ]
 
 
@@ -361,6 +393,7 @@ def correspond(ctx):
                 tolerant.append((f"t|{t}|{k}|" + "|".join(la) + f"|{val}|{tol}", "agree", nt))
     ctx.correspond("X1 exact kernels", "C10", exact, build=DRIVER_DEPS)
     ctx.correspond("X2 tolerant kernels", "C10", tolerant, build=DRIVER_DEPS)
+    c10_loops.correspond_loops(ctx, Impl, twins, DRIVER_DEPS)
 
 
 # ================================================================================================ differential oracle
@@ -694,7 +727,8 @@ class Diff:
 # differences of representation only (explained in the report, excluded precisely by (label, category))
 REPRESENTATIONAL = {}
 for _c in ("Bezier4P", "Bezier3P"):
-    for _m in ("point", "tangent", "control_points", "reverse", "approximate", "flattening", "start_end", "__reduce__", "__init__", "transform"):
+    for _m in ("point", "tangent", "control_points", "reverse", "approximate", "flattening", "start_end", "__reduce__", "__init__", "transform",
+               "start_point", "end_point"):
         # the Cython curves store Vec3 and always return Vec3; the Python curves return the type of their definition
         # points (Vec2 in -> Vec2 out).  Values are compared with z = 0.
         REPRESENTATIONAL[(f"{_c}.{_m}", "type")] = "Vec2 definition points give Vec2 results in Python, Vec3 (z=0) in Cython"
@@ -809,6 +843,7 @@ def diff_vectors(d: Diff, n: int):
                 d.call("Vec2.det/input-forms", [a, g.vec_input(2)], lambda im, x, y: x.det(y), cover="Vec2.det")
                 d.call("Vec2.vec3", [a], lambda im, x: x.vec3)
     d.covered |= {"Vec3.decompose"}  # pure-Python helper, see API_ONLY_ONE_TWIN
+    d.covered |= {"Vec3.__copy__", "Vec3.__deepcopy__", "Vec2.__copy__", "Vec2.__deepcopy__"}  # exercised by the `copy` plan (copy.copy / copy.deepcopy)
     g.allow_1e300 = False
 
 
@@ -952,6 +987,9 @@ def diff_matrix(d: Diff, n: int):
             d.call("Matrix44.inverse/singular", [sm], lambda im, x: (x.inverse(), x)[1], cover="Matrix44.inverse")
 
 
+    d.covered |= {"Matrix44.__copy__"}  # copy.copy(m) in the `copy` and `copy/independent` plans
+
+
 def diff_bezier(d: Diff, n: int):
     g, r = d.gen, d.rng
     for cls, npts, build_key in (("Bezier4P", 4, "B4"), ("Bezier3P", 3, "B3")):
@@ -985,6 +1023,9 @@ def diff_bezier(d: Diff, n: int):
                        cover=f"{cls}.flattening")
             d.call(f"{cls}.start_end", [curve], lambda im, cv: (cv.control_points[0], cv.control_points[-1]), cover=f"{cls}.control_points")
             d.call(f"{cls}.__reduce__", [curve], lambda im, cv: __import__("pickle").loads(__import__("pickle").dumps(cv)))
+            # readonly C attributes of the Cython classes only: must be the end points the Python twin has as control_points[0] / [-1]
+            d.call(f"{cls}.start_point", [curve], lambda im, cv: cv.start_point if hasattr(cv, "start_point") else cv.control_points[0])
+            d.call(f"{cls}.end_point", [curve], lambda im, cv: cv.end_point if hasattr(cv, "end_point") else cv.control_points[-1])
             # construction from other input forms / wrong arity
             raw = r.choice([RX([p[1] for p in pts]), RX([p[1] for p in pts][:-1]), RX([]), ("seq!", pts + [pts[0]]), ("seq!", pts[:2]),
                             ("seq", [("V2", p[1][:2]) for p in pts]), RX(None), ("seq!", [pts[0]] + [R(p[1]) for p in pts[1:]])])
@@ -1115,7 +1156,15 @@ def diff_bspline(d: Diff, n: int):
         weights = None if r.random() < 0.6 else [r.choice([1.0, 0.5, 2.0, 3.0]) for _ in range(count)]
         basis = ("basis", knots, order, count, weights)
         lo, hi = knots[order - 1], knots[count]
-        u = r.choice([lo, hi, (lo + hi) / 2, lo + (hi - lo) * r.random(), knots[r.randrange(len(knots))]])
+        if kind != "weird" and r.random() < 0.25:
+            # parameter ranges far from 1: tiny ranges and ranges that end at 0 (the snapping of u to max_t in Evaluator.point /
+            # derivative is a tolerance test; absolute and relative tolerances only differ away from magnitude 1)
+            sc, sh = r.choice([(1e-6, 0.0), (1e-3, 0.0), (1.0, -knots[-1]), (1e6, 0.0), (0.25, -knots[-1] * 0.25)])
+            knots = [k * sc + sh for k in knots]
+            basis = ("basis", knots, order, count, weights)
+        lo, hi = knots[order - 1], knots[count]
+        u = r.choice([lo, hi, (lo + hi) / 2, lo + (hi - lo) * r.random(), knots[r.randrange(len(knots))],
+                      knots[-1] - r.choice([5e-13, 1e-13, 2e-12]), knots[-1] * (1 - 5e-10), knots[-1] - (knots[-1] - lo) * 1e-7])
         for name in ("order", "degree", "knots", "weights", "is_rational", "max_t"):
             d.call(f"Basis.{name}", [basis], lambda im, b, name=name: getattr(b, name))
         d.call("Basis.count", [basis], lambda im, b: getattr(b, "count", None) if hasattr(b, "count") else b._count)
@@ -1136,13 +1185,14 @@ def diff_bspline(d: Diff, n: int):
             d.call("Evaluator.derivative", [ev, R(u), R(k)], lambda im, e, t, kk: e.derivative(t, kk), ulp=1 << 10)
             d.call("Evaluator.derivatives", [ev, R(ts), R(k)], lambda im, e, tt, kk: list(e.derivatives(tt, kk)), ulp=1 << 10)
             d.call("Evaluator.__init__/input-forms", [basis, RX([c[1] for c in cps]), R(u)], lambda im, b, c, t: im.Evaluator(b, c).point(t), ulp=64, cover="Evaluator.point")
+            d.call("Evaluator.__reduce__", [ev, R(u)], lambda im, e, t: __import__("pickle").loads(__import__("pickle").dumps(e)).point(t), ulp=64)
         d.call("Basis.__reduce__", [basis], lambda im, b: (lambda x: (x.knots, x.order, x.weights))(__import__("pickle").loads(__import__("pickle").dumps(b))))
         # invalid definitions
         bad = r.choice([("basis", knots[:-1], order, count, weights), ("basis", knots, order, count, [1.0]), ("basis", knots + [9.0], order, count, None),
                         ("basis", [0.0, 1.0, 2.0], 1, 2, None), ("basis", [float(i) for i in range(12 + 14)], 12, 14, None), ("basis", [0.0, 1.0, 2.0], 2, 1, None),
                         ("basis", [], 0, 0, None)])
         d.call("Basis.__init__/invalid", [("basis",) + bad[1:]], lambda im, b: (b.order, b.knots), cover="Basis.order")
-    d.covered |= {"Basis.span_weighting", "Basis.count"}
+    d.covered |= {"Basis.span_weighting", "Basis.count", "Basis.__init__", "Evaluator.__init__"}
 
 
 def diff_earcut(d: Diff, n: int):
@@ -1187,7 +1237,7 @@ def diff_linetypes(d: Diff, n: int):
         else:
             dashes = []
             for i in range(r.choice([2, 2, 4, 4, 6, 3, 3, 5])):  # odd counts too: the dash/gap role alternates per cycle
-                dashes.append(r.choice([0.0, 0.5, 1.0, 0.25, 0.1, 0.3, 0.7, 3.0]) if i % 2 == 0 else r.choice([0.25, 0.5, 1.0, 0.1, 0.2, 0.0]))
+                dashes.append(r.choice([0.0, 0.5, 1.0, 0.25, 0.1, 0.3, 0.7, 3.0, -0.0]) if i % 2 == 0 else r.choice([0.25, 0.5, 1.0, 0.1, 0.2, 0.0, -0.0]))
         if dashes and sum(dashes) < 0.05:
             continue  # a pattern of (nearly) zero total length does not terminate in reasonable time in either twin
         segs = []
@@ -1221,7 +1271,8 @@ def diff_linetypes(d: Diff, n: int):
         # patterns with zero-length dashes (dots) and without are keyed separately
         sub = "dots" if any(x == 0.0 for x in dashes[0::2]) else "plain"
         d.call(f"_LineTypeRenderer.line_segment/{sub}", [R(dashes), R(segs)], run, ulp=64, cover="_LineTypeRenderer.line_segment")
-    d.covered |= {"_LineTypeRenderer.is_solid"}
+        d.call("_LineTypeRenderer.__reduce__", [R(dashes)], lambda im, dd: __import__("pickle").loads(__import__("pickle").dumps(im.LTR(dd))).is_solid)
+    d.covered |= {"_LineTypeRenderer.is_solid", "_LineTypeRenderer.__init__"}
 
 
 def diff_np_support(d: Diff, n: int):
@@ -1255,8 +1306,24 @@ def diff_np_support(d: Diff, n: int):
                 if 0 <= col < size:
                     A[i][j] = float(r.randint(-3, 3)) if j != m1 else float(r.choice([8, -9, 10]))
         rhs = [float(r.randint(-5, 5)) for _ in range(size)]
+        sing = r.random()
+        if sing < 0.12:  # singular: a zero column under the pivot search / a zero row / all zero
+            for i in range(size):
+                A[i][m1] = 0.0
+                for j in range(m1):
+                    A[i][j] = 0.0
+        elif sing < 0.2:
+            A[r.randrange(size)] = [0.0] * (m1 + m2 + 1)
+        elif sing < 0.25:
+            A = [[0.0] * (m1 + m2 + 1) for _ in range(size)]
 
         def lu(im, a, b, k1, k2):
+            import warnings
+            with warnings.catch_warnings():
+                warnings.simplefilter("ignore", RuntimeWarning)  # numpy: invalid value / divide by zero (the result shows it anyway)
+                return _lu(im, a, b, k1, k2)
+
+        def _lu(im, a, b, k1, k2):
             arr = np.array(a, dtype=np.float64)
             if im.np_support is None:
                 up, lo, idx = linalg._lu_decompose(arr, k1, k2)
@@ -1317,6 +1384,125 @@ def api_surface(d: Diff):
                 d.note_fail(f"uncovered/{mname}.{n}", f"function {mname}.{n} is not exercised by the differential test")
 
 
+# ---------------------------------------------------------------------------------------------- inventory of the accelerated modules
+# accelerated module -> where its pure Python twin lives (None: the twins are single functions of other modules, listed in NP_TWINS)
+ACC_TWIN = {"vector": "ezdxf.math._vector", "matrix44": "ezdxf.math._matrix44", "bezier4p": "ezdxf.math._bezier4p",
+            "bezier3p": "ezdxf.math._bezier3p", "bspline": "ezdxf.math._bspline", "construct": "ezdxf.math._construct",
+            "mapbox_earcut": "ezdxf.math._mapbox_earcut", "linetypes": "ezdxf.render._linetypes", "np_support": None}
+NP_TWINS = {"has_clockwise_orientation": "ezdxf.math._construct.has_clockwise_orientation", "lu_decompose": "ezdxf.math.linalg._lu_decompose",
+            "solve_vector_banded_matrix": "ezdxf.math.linalg._solve_vector_banded_matrix"}
+# API names whose loops are proved in Props/C10 section 5 (function -> theorem)
+LOOP_THEOREMS = {"Basis.find_span": "twin_findSpan", "Basis.basis_funcs": "twin_basisFuncs", "Basis.span_weighting": "twin_spanWeighting",
+                 "Basis.basis_vector": "twin_basisVector", "Evaluator.point": "twin_evalPoint", "Evaluator.points": "twin_evalPoint",
+                 "_LineTypeRenderer.line_segment": "twin_lineSegment", "construct.has_clockwise_orientation": "twin_clockwise",
+                 "np_support.has_clockwise_orientation": "twin_clockwiseNp",
+                 "Evaluator.derivative": "twin_edSub", "Evaluator.derivatives": "twin_edSub"}  # derivative: loop bodies only
+
+
+def theorem_cover() -> dict:
+    """API name ('Class.method' / 'module.function') -> name of a theorem of Props/C10.lean about a kernel translated from it"""
+    import re
+    text = open(os.path.join(os.path.dirname(os.path.abspath(__file__)), "..", "..", "lean", "EzdxfVerif", "Props", "C10.lean")).read()
+    thms = set(re.findall(r"^theorem\s+(twin_[A-Za-z0-9_]+)", text, flags=re.M))
+    find = lambda lean: next((t for t in sorted(thms) if t == "twin_" + lean or t.startswith("twin_" + lean + "_")), None)
+    cover = {}
+    for lean, qual, *_ in c11.vector_kernels(True) + c11.matrix_kernels(True):
+        t = find(lean)
+        if t and qual:
+            cover.setdefault(qual, t)
+    modname = {"vector": "vector", "bez4": "bezier4p", "bez3": "bezier3p", "construct": "construct"}
+    for key, lean, qual, params, kw in twin_kernels(True):
+        t = find(lean)
+        if not t:
+            continue
+        if qual:
+            cover.setdefault(qual if "." in qual else f"{modname[key]}.{qual}", t)
+        else:
+            ex = kw["expr"]
+            cls = re.match(r"(?:tuple\(|Vec3\()?(Bezier4P|Bezier3P)", ex)
+            for m in re.findall(r"\.(\w+)", ex):
+                if cls:
+                    cover.setdefault(f"{cls.group(1)}.{m}", t)
+            m = re.match(r"(\w+)\(", ex)
+            if m and not cls:
+                cover.setdefault(f"construct.{m.group(1)}", t)
+            if cls:
+                cover.setdefault(f"{cls.group(1)}.__init__", t)
+    for k, t in LOOP_THEOREMS.items():
+        if t in thms:
+            cover.setdefault(k, t)
+    return cover
+
+
+def inventory(d: Diff) -> dict:
+    """every public callable of every module of the package ezdxf.acc, found from the LIVE modules:
+    -> {"<module>.<name>" or "<Class>.<attr>": {"diff": bool, "theorem": str|None, "twin": bool}}; also fails for modules / names
+    that have no twin or no differential stream"""
+    import importlib
+    import inspect
+    import pkgutil
+    import ezdxf.acc as acc
+    cover = theorem_cover()
+    inv = {}
+    for mi in pkgutil.iter_modules(acc.__path__):
+        name = mi.name
+        try:
+            mc = importlib.import_module(f"ezdxf.acc.{name}")
+        except ImportError:
+            continue
+        if name not in ACC_TWIN:
+            d.note_fail(f"api/module/{name}", f"accelerated module ezdxf.acc.{name} has no registered pure Python twin (new module?)")
+            continue
+        mp = importlib.import_module(ACC_TWIN[name]) if ACC_TWIN[name] else None
+        for n in sorted(dir(mc)):
+            obj = getattr(mc, n)
+            if n.startswith("__") or getattr(obj, "__module__", None) != mc.__name__ or not (callable(obj) or inspect.isclass(obj)):
+                continue
+            if n.startswith("_") and not inspect.isclass(obj):
+                continue
+            if (name, n) in ACC_INTERNAL:
+                inv[f"{name}.{n}"] = {"diff": False, "theorem": None, "twin": False, "internal": ACC_INTERNAL[(name, n)]}
+                continue
+            if inspect.isclass(obj):
+                pcls = getattr(mp, n, None) if mp else None
+                if n.startswith("_") and pcls is None:
+                    continue  # private helper class of the extension (e.g. _Flattening): reachable only through its public user
+                if pcls is None:
+                    d.note_fail(f"api/{name}.{n}/only-pyx", f"class ezdxf.acc.{name}.{n} has no pure Python twin")
+                    continue
+                own = set(vars(obj)) | set(vars(pcls))
+                for a in sorted(set(dir(obj)) | set(dir(pcls))):
+                    if a.startswith("_") and not (a in PROBED_DUNDERS and a in own):
+                        continue
+                    key = f"{n}.{a}"
+                    inv[key] = {"diff": key in d.covered, "theorem": cover.get(key), "twin": pcls is not None and hasattr(pcls, a) and hasattr(obj, a)}
+            else:
+                key = f"{name}.{n}"
+                if mp is not None:
+                    twin = hasattr(mp, n)
+                else:
+                    twin = n in NP_TWINS
+                inv[key] = {"diff": key in d.covered or (name == "np_support" and f"np_support.{n}" in d.covered), "theorem": cover.get(key), "twin": twin}
+                if not twin and name != "mapbox_earcut":
+                    d.note_fail(f"api/{key}/only-pyx", f"function ezdxf.acc.{key} has no pure Python twin")
+    for key, v in sorted(inv.items()):
+        if not v.get("internal") and not v["diff"] and not v["theorem"] and (key.split(".")[0], key.split(".")[1]) not in NOT_EXERCISED \
+                and not any(k[0] == key.split(".")[0] and k[1] == key.split(".")[1] for k in API_ONLY_ONE_TWIN):
+            d.note_fail(f"uncovered/{key}", f"public name {key} of the accelerated modules has neither a theorem nor a differential stream")
+    return inv
+
+
+# public names of the extension modules that are internal helpers without a twin by design (listed in the evidence, not exercised)
+ACC_INTERNAL = {("bezier4p", "FastCubicCurve"): "cdef helper class of Bezier4P, only cdef methods (nothing callable from Python but the constructor)",
+                ("bezier3p", "FastQuadCurve"): "cdef helper class of Bezier3P, only cdef methods",
+                ("mapbox_earcut", "Node"): "linked list node of earcut (the Python module has its own Node class); exercised through earcut()",
+                ("mapbox_earcut", "node_key"): "sort key of earcut's hole elimination; exercised through earcut() with holes"}
+
+PROBED_DUNDERS = {"__init__", "__add__", "__sub__", "__radd__", "__rsub__", "__mul__", "__rmul__", "__truediv__", "__rtruediv__", "__neg__", "__abs__",
+                  "__bool__", "__eq__", "__lt__", "__le__", "__gt__", "__ge__", "__ne__", "__hash__", "__len__", "__iter__", "__getitem__", "__setitem__",
+                  "__repr__", "__str__", "__reduce__", "__matmul__", "__imul__", "__iadd__", "__isub__", "__copy__", "__deepcopy__"}
+
+
 def run_diff(seed: int, quick: bool) -> Diff:
     d = Diff(seed, quick)
     k = 1 if quick else 12
@@ -1329,6 +1515,7 @@ def run_diff(seed: int, quick: bool) -> Diff:
     diff_linetypes(d, 600 * k)
     diff_np_support(d, 100 * k)
     api_surface(d)
+    d.inventory = inventory(d)
     return d
 
 
@@ -1346,6 +1533,19 @@ def oracle(ctx):
         ctx.cov["distinct_nontrivial"] += nt
     for key, n in sorted(d.per_key.items()):
         ctx.hist("D differences by key", key, n)
+    none, only_diff, only_thm, both = [], [], [], []
+    internal = {k: v["internal"] for k, v in d.inventory.items() if v.get("internal")}
+    for key, v in sorted(d.inventory.items()):
+        if v.get("internal"):
+            ctx.hist("API inventory (public names of ezdxf.acc.* by dir())", "internal helper (no twin by design)")
+            continue
+        (both if v["diff"] and v["theorem"] else only_diff if v["diff"] else only_thm if v["theorem"] else none).append(key)
+        ctx.hist("API inventory (public names of ezdxf.acc.* by dir())", "theorem+differential" if v["diff"] and v["theorem"] else
+                 "differential only" if v["diff"] else "theorem only" if v["theorem"] else "NEITHER")
+    ctx.cov["api_inventory"] = {"names": len(d.inventory), "theorem_and_differential": both, "differential_only": only_diff,
+                                "theorem_only": only_thm, "neither": none, "internal": internal}
+    if none:
+        ctx.note("INFRA: public names of ezdxf.acc.* with neither a theorem nor a differential stream: " + ", ".join(none))
     for f in d.fails:
         ctx.fail(f["key"], f["what"], f["replay"])
 
